@@ -5,7 +5,12 @@
 From Coq Require Import List NArith ZArith Bool Floats String.
 From LinfaVerif Require Export Common.Num Common.NdSum Common.Run C09.Model C20.Model gen.C20_seeds.
 From LinfaVerif Require Import Common.B32 C17.Model C20.VocabModel.
+From LinfaVerif Require C20.ModelR5.
 Import ListNotations.
+
+(* round 5, history dimension: constructors of the recorded events under the names the generated case files use *)
+Definition HSet := C20.ModelR5.HSet.
+Definition HFit := C20.ModelR5.HFit.
 
 Definition o64 := B64_ops.
 
@@ -29,12 +34,15 @@ Inductive case :=
    window [mindf, maxdf] given as binary32 bit patterns, stop words) fitted several times on [train]:
    per fit the order of `vocabulary()` and the dense rows of `transform(test)` *)
 | CVocab (id : N) (nmax : N) (cap : option N) (mindf maxdf : Z) (stop : option (list string))
-         (train test : list string) (fits : list (list string * list (list N))).
+         (train test : list string) (fits : list (list string * list (list N)))
+(* history dimension (round 5): per object its initial settings id and the recorded sequence of setter calls
+   (settings id) and fits / predict / transform calls (data id, digest of everything the call produced) *)
+| CHist (id : N) (objs : list (N * list C20.ModelR5.hevent)).
 
 Definition case_id (c : case) : N :=
   match c with
   | CModal id _ _ | CArgmax id _ _ | CPar id _ _ _ _ _ _ _ _ _ _ _ _ _ _ _
-  | CHier id _ _ _ | CLabels id _ _ | CSeed id _ _ _ _ | CVocab id _ _ _ _ _ _ _ _ => id
+  | CHier id _ _ _ | CLabels id _ _ | CSeed id _ _ _ _ | CVocab id _ _ _ _ _ _ _ _ | CHist id _ => id
   end.
 
 Definition opt_N_eqb (a : option N) (b : N) : bool := match a with Some x => N.eqb x b | None => false end.
@@ -170,6 +178,10 @@ Definition run_case (c : case) : verdict :=
                end) 1
          + flag (forallb (fun o => same_columns words ref_cols (word_columns 1 (N.to_nat nmax) (fit_ord o s tr) te))
                          (map rot_orders (seq 1 4) ++ map (fun f => observed_orders (fst f)) fits)) 4)%N))
+  | CHist id objs =>
+      (* the settings in effect at each fit are computed by C20/ModelR5.v hist_obs (last setter call wins); the
+         observed digests must be a function of (settings in effect, data): hist_functional_sound *)
+      (id, (0%N, flag (C20.ModelR5.hist_functional objs) 32))
   end.
 
 Definition run_cases (cs : list case) : list N := report (map run_case cs).
